@@ -44,7 +44,7 @@ def feasible_pair(M, Aeff, beff, B, neutral, Xs, s, d1, dr, lbl, ubl, m):
     return M.conj(*gs)
 
 
-def adaptive_case(M, m, n, rows, kkind, neutral_kind, objective, sw_kind, via="function"):
+def adaptive_case(M, m, n, rows, kkind, neutral_kind, objective, sw_kind, via="function", deltas=None):
     from dreye.api.optimize.lsq_linear import lsq_linear_adaptive
     A, K, base, lb, ub, lbl, ubl = fs.mk_system(M, m, n, kkind, "vec", "pos", "fin")
     neutral = None
@@ -68,7 +68,11 @@ def adaptive_case(M, m, n, rows, kkind, neutral_kind, objective, sw_kind, via="f
             out[i] = nu * T + (p - st[0] * nu * T) / st[1]
         return out
     B = M.real("B", (rows, m), sample=_b_sample)
-    d1 = M.real("d1", (), sample=lambda r, s: r.uniform(1e-4, 1e-3)); dr = M.real("dr", (), sample=lambda r, s: r.uniform(1e-4, 1e-3))
+    if deltas is not None:
+        # concrete modes: one tolerance far larger than the other (a mix-up of the two shows only when they differ by more than the solver noise); symbolic as usual
+        d1 = M.real("d1", (), sample=lambda r, s: deltas[0]); dr = M.real("dr", (), sample=lambda r, s: deltas[1])
+    else:
+        d1 = M.real("d1", (), sample=lambda r, s: r.uniform(1e-4, 1e-3)); dr = M.real("dr", (), sample=lambda r, s: r.uniform(1e-4, 1e-3))
     M.assume(d1 > 0); M.assume(dr > 0)
     sw = {"default": lambda: 1, "scalar": lambda: M.real("sw", (), sample=lambda r, s: r.uniform(0.5, 2.0)),
           "pair": lambda: M.real("sw", (2,), sample=lambda r, s: r.uniform(0.5, 2.0, size=s))}[sw_kind]()
@@ -130,7 +134,7 @@ def adaptive_case(M, m, n, rows, kkind, neutral_kind, objective, sw_kind, via="f
                     goals["lemma: (w1(s1-1))^2 + (w2(s2-1))^2 <= 0 with w != 0 forces s = (1,1)"] = SB(z3.ForAll([w1, w2, a1, a2], z3.Implies(
                         z3.And(w1 != 0, w2 != 0, (w1 * (a1 - 1)) * (w1 * (a1 - 1)) + (w2 * (a2 - 1)) * (w2 * (a2 - 1)) <= 0), z3.And(a1 == 1, a2 == 1))))
     else:
-        tol = 5e-3
+        tol = 5e-3 * max(1.0, float(np.max(np.abs(np.asarray(B, dtype=float)))))  # the conic solver's accuracy is relative to the magnitude of the captures
         ok = bool(np.all(X >= np.array(lbl) - 0.01) and np.all(X <= np.array(ubl) + 0.01) and s_[0] >= -1e-6 and s_[1] >= -1e-6)
         nsum = float(sum(neu))
         for i in range(rows):
@@ -201,6 +205,13 @@ def cases(tier, seed):
             add(f"3x3 rows=1 K=vec neutral={neutral_kind} obj={objective} sw=scalar", m=3, n=3, rows=1, kkind="vec", neutral_kind=neutral_kind, objective=objective, sw_kind="scalar")
             add(f"2x3 rows=3 K=vec neutral={neutral_kind} obj={objective} sw=default", m=2, n=3, rows=3, kkind="vec", neutral_kind=neutral_kind, objective=objective, sw_kind="default")
         add(f"estimator.fit_adaptive 2x3 rows=2 obj={objective}", m=2, n=3, rows=2, kkind="vec", neutral_kind="given", objective=objective, sw_kind="pair", via="estimator")
+        if objective is not None:
+            for dl in ((0.3, 3e-4), (3e-4, 0.3)):
+                add(f"estimator.fit_adaptive 2x3 rows=2 obj={objective} sampled deltas (total, offset)={dl}", m=2, n=3, rows=2, kkind="vec", neutral_kind="given",
+                    objective=objective, sw_kind="pair", via="estimator", deltas=dl)
+                C[-1]["opts"]["n_validate"] = 2
+            add(f"2x2 rows=2 K=vec obj={objective} sampled deltas (total, offset)=(0.3, 0.0003)", m=2, n=2, rows=2, kkind="vec", neutral_kind="default", objective=objective, sw_kind="pair",
+                deltas=(0.3, 3e-4))
         if big:
             add(f"3x4 rows=4 K=vec neutral=given obj={objective}", m=3, n=4, rows=4, kkind="vec", neutral_kind="given", objective=objective, sw_kind="pair")
             add(f"4x6 rows=2 K=vec neutral=default obj={objective}", m=4, n=6, rows=2, kkind="vec", neutral_kind="default", objective=objective, sw_kind="pair")
